@@ -1,3 +1,4 @@
 import Dalek.Props.C07.X25519
 import Dalek.Props.C07.Conversions
 import Dalek.Props.C07.PublicKey
+import Dalek.Props.C05.CfgGated
